@@ -569,7 +569,13 @@ impl Mon {
         let eps = (&q.asv + &q.lsv + ri(2)) * ri(8) * ulp();
         self.r.eval();
         let all = arg_opt_bool(&v.ev.data, 16) == Some(true);
-        let tokenless = kind == Kind::Repay && vault_in.is_zero() && pre.flags & FLAG_TOKENLESS_ALLOWED != 0;
+        // the sanctioned exception: the risk admin settles a whole debt without tokens on a bank the
+        // group admin flagged for it - nobody else, and never a partial repayment
+        let tokenless = kind == Kind::Repay
+            && vault_in.is_zero()
+            && pre.flags & FLAG_TOKENLESS_ALLOWED != 0
+            && all
+            && v.pre(&pre.group).and_then(group_of).map(|g| info.signers.contains(&g.risk_admin)).unwrap_or(false);
         let svc = if q.asv == one() && q.lsv == one() { 0 } else if q.asv < one() { 2 } else { 1 };
         self.r.distinct(&(kind.name(), all, svc, w.mints[bd.mint].decimals, matches!(w.mints[bd.mint].kind, crate::world::TokKind::T22Fee { .. })));
         match kind {
